@@ -36,6 +36,29 @@ pub fn mk_node(seed: u8, merge: bool, max_txs: usize) -> Node {
     Node { chain, store, node_id, pk }
 }
 
+/// A node whose chain has a non-empty global codebook (centroids: the four axes the generated delta
+/// embeddings lie on), built through `TensorChain::with_codebook`: the auto-merge step of commit then
+/// asks the transition validator about every candidate, and the sum of two axis deltas (cosine 0.707
+/// to the nearest centroid, threshold 0.8) is rejected. The constructor generates the node key itself.
+pub fn mk_node_codebook(merge: bool, max_txs: usize) -> Node {
+    use tensor_chain::{CodebookConfig, GlobalCodebook, ValidationConfig};
+    let store = TensorStore::new();
+    let am = if merge { AutoMergeConfig::default().with_window(3_600_000) } else { AutoMergeConfig::disabled() };
+    let cfg = ChainConfig::new("codebook-node".to_string()).with_auto_merge_config(am).with_max_txs(max_txs);
+    let centroids: Vec<Vec<f32>> = (0..4)
+        .map(|i| {
+            let mut v = vec![0.0f32; 128];
+            v[i] = 1.0;
+            v
+        })
+        .collect();
+    let chain = TensorChain::with_codebook(store.clone(), cfg, GlobalCodebook::from_centroids(centroids), CodebookConfig::default(), ValidationConfig::default());
+    chain.initialize().expect("initialize");
+    let node_id = chain.node_id().clone();
+    let pk = chain.identity().verifying_key();
+    Node { chain, store, node_id, pk }
+}
+
 /// Harness-side structural check of `block` against its predecessor: consecutive height,
 /// prev_hash = own hash of the predecessor header, tx_root = own Merkle root, signature valid
 /// for the own canonical bytes under the node key, proposer = node.
